@@ -16,7 +16,7 @@ from . import lib
 from . import c18_util as U
 
 FIELDS = ['id', 'name', 'pos', 'pair', 'color', 'flag', 'big', 'f', 'opt', 'left', 'right', 'leaf', 'bytes', 'longs', 'colors',
-          'structs', 'pairs', 'strs', 'nodes', 'leaves', 'any', 'anys', 'nested', 'nested8']
+          'structs', 'pairs', 'strs', 'nodes', 'leaves', 'any', 'anys', 'nested', 'nested8', 'nested32', 'nested64', 'nested128', 'nested256']
 FBIT = {n: i for i, n in enumerate(FIELDS)}
 ALL = (1 << len(FIELDS)) - 1
 UNION_KIND = {1: 'N', 2: 'LF', 3: 'VS', 4: 'PS', 5: 'S'}
@@ -81,7 +81,7 @@ def hexs(b): return bytes(b).hex() if len(b) else '-'
 
 
 def gen_prog(rng, size, feats):
-    """feats: set of {'ustr', 'unone', 'nested8', 'ux', 'empty'}; everything else is always on"""
+    """feats: set of {'ustr', 'unone', 'nested8', 'nestedA', 'ux', 'empty'}; everything else is always on"""
     P = Prog()
     LIMIT = 4000
     unf = []
@@ -111,6 +111,13 @@ def gen_prog(rng, size, feats):
     add('NB', '%s,%d' % (hexs(bytes(rng.randint(1, 255) for _ in range(rng.randint(0, 9)))), rng.randint(-5, 5)))
     if 'nested8' in feats:
         add('N8', str(rng.getrandbits(60)))
+    if 'nestedA' in feats:
+        # nested roots with force_align 32 .. 256 structs (and vectors of them); several per alignment so that they sit at
+        # different distances from each other and from the end of the buffer
+        for al in (32, 64, 128, 256):
+            for _ in range(rng.choice([1, 1, 2])):
+                add('A%d' % al, '%d,%d,%s' % (rng.getrandbits(30), rng.choice([-1, 1, 2, 3, 5]),
+                                             bytes(rng.randint(1, 255) for _ in range(rng.choice([0, 1, 3, 8, 21]))).hex()))
 
     def pick(kind):
         c = P.of_kind(kind)
@@ -164,7 +171,7 @@ def gen_prog(rng, size, feats):
         if rng.random() < 0.3: f.append('opt=%d' % rng.choice([0, -1, 32767, -32768]))
         for name, kind, p in (('left', 'N', .5), ('right', 'N', .5), ('leaf', 'LF', .5), ('bytes', 'B', .4), ('longs', 'L', .3), ('colors', 'C', .3),
                               ('structs', 'V', .3), ('pairs', 'P', .3), ('strs', 'SV', .4), ('nodes', 'NV', .4), ('leaves', 'LV', .3), ('nested', 'NB', .25),
-                              ('nested8', 'N8', .9)):
+                              ('nested8', 'N8', .9), ('nested32', 'A32', .7), ('nested64', 'A64', .7), ('nested128', 'A128', .6), ('nested256', 'A256', .6)):
             if rng.random() < p: ref(name, kind)
         if rng.random() < 0.45:
             txt, i = union_ref(False)
@@ -261,12 +268,20 @@ def clone_part(ctx):
     add_case('uvec_none', {'unone'}, P, n, 'clone', ALL, 0)
     P = Prog(); n8 = P.add('N8', '77'); n = P.add('N', 'id=1,nested8=0', (), {'nested8': [n8]})
     add_case('nested8', {'nested8'}, P, n, 'clone', ALL, 0)
+    for al in (32, 64, 128, 256):
+        for pre in ('', '61', '6162636465'):
+            P = Prog(); deps = {}; f = []
+            if pre: s0 = P.add('S', pre); deps['name'] = [s0]; f.append('name=%d' % s0)
+            a = P.add('A%d' % al, '5,2,6869'); deps['nested%d' % al] = [a]; f.append('nested%d=%d' % (al, a))
+            n = P.add('N', ','.join(f), (), deps)
+            for use_map in (0, 1): add_case('nested_align', {'nestedA'}, P, n, 'clone', ALL, use_map)
     family('dag', set(), 500 if T else 28, [3, 8, 15, 30, 60])
     family('dag_ux', {'ux'}, 150 if T else 8, [10, 25, 40])
     family('empty_vec', {'empty'}, 120 if T else 10, [3, 8, 15, 30])
     family('union_string', {'ustr'}, 40 if T else 5, [6, 15])
     family('uvec_none', {'unone'}, 40 if T else 5, [6, 15])
     family('nested8', {'nested8'}, 80 if T else 8, [4, 10, 20])
+    family('nested_align', {'nestedA', 'nested8'}, 120 if T else 14, [2, 5, 10, 20])
     # fixed small cases (also documentation of the protocol)
     for use_map in (1, 0):
         P = Prog(); s = P.add('S', '6869'); lf = P.add('LF', 'name=0,val=3', [s])
@@ -290,7 +305,8 @@ def clone_part(ctx):
         if r == 'SKIP': continue
         dkey = {'union_string': 'clone-union-string', 'uvec_none': 'clone-union-vector-none', 'nested8': 'clone-nested-alignment'}.get(klass)
         what_extra = {'union_string': ' [source holds a string as union member]', 'uvec_none': ' [source holds a NONE element in a union vector]',
-                      'nested8': ' [source holds a nested buffer with 8-byte aligned content]'}.get(klass, '')
+                      'nested8': ' [source holds a nested buffer with 8-byte aligned content]',
+                      'nested_align': ' [source holds nested buffers whose roots contain force_align 32/64/128/256 structs]'}.get(klass, '')
         rep = {'harness_line': line if len(line) < 60000 else line[:60000], 'reply': r[:3000], 'mode': mode, 'mask': mask, 'refmap': use_map}
 
         alias = int((r.split(' alias=')[1].split()[0]) if ' alias=' in r else 0)
